@@ -1,6 +1,6 @@
-\* thorough: 1-D {0..3}, all sequences of 1..7 points, ascending order, minPts 1..4 and 8 (all noise)
-CONSTANTS W = 4  H = 0  MaxN = 7  EpsSet = {1, 2}  MinPtsSet = {1, 2, 3, 4, 8}
-          Key = "man"  Order = "asc"  Emit = FALSE
+\* thorough: 1-D {0..3}, ALL sequences of 1..7 points, ascending order, eps 1..2, minPts 2..4; terminal states printed: the real code is replayed on every one of these inputs
+CONSTANTS W = 4  H = 0  MaxN = 7  EpsSet = {1, 2}  MinPtsSet = {2, 3, 4}
+          Key = "man"  Order = "asc"  Emit = TRUE
 SPECIFICATION Spec
 INVARIANT ModelSatisfiesProperty
 INVARIANT TypeOK
@@ -13,4 +13,5 @@ INVARIANT ClosedClusters
 INVARIANT LabelledHasWitness
 INVARIANT StackBounded
 INVARIANT NoProvisionalLeft
+INVARIANT ReplayOut
 CHECK_DEADLOCK FALSE
